@@ -378,6 +378,11 @@ Fixpoint eq_events (a b : list (Z * Z * bool * Z)) : bool :=
   | _, _ => false
   end.
 
+(* NOT EVALUATED BY ANY SUITE since the instance round: suite "txn" evaluates
+   [OrderSuite.run_case_ord] -> [Instance.run_case_inst], which runs the same
+   [run_req] / [run_res] / [result_code] over an oracle derived from the
+   instances.  Kept (with [case], [dec_oracle]) because [Suite.case_ok] is stated
+   over the [case] type. *)
 Definition run_case (k : case) : option (list (Z * Z * bool * Z) * Z) :=
   let '(fl, (s1, s2), rows, isreq, (obs, code)) := k in
   let fs := map dec_flow fl in
